@@ -62,6 +62,10 @@ pub struct Swarm {
     pub p_index: u32,
     /// percent of text/blob values that are long (TOAST-sized)
     pub p_long: u32,
+    /// percent of non-key text values of medium length (500..=900 bytes: below the TOAST threshold,
+    /// large enough that a transaction of a few multi-row INSERTs dirties tens of pages)
+    #[serde(default)]
+    pub p_medium: u32,
     pub long_max: u32,
     pub p_null: u32,
     pub p_multi_insert: u32,
@@ -126,7 +130,10 @@ impl Gen {
                 }
             }
             Ty::Text => {
-                if !keyish && rng.chance(sw.p_long as u64, 100) {
+                if !keyish && sw.p_medium > 0 && rng.chance(sw.p_medium as u64, 100) {
+                    self.next_long += 1;
+                    Val::Long { tag: self.next_long, len: rng.range(500, 901) as u32, blob: false }
+                } else if !keyish && rng.chance(sw.p_long as u64, 100) {
                     self.next_long += 1;
                     let len = if rng.chance(1, 3) {
                         rng.range(900, 1100) as u32
@@ -551,6 +558,34 @@ impl Gen {
             if aim_fail {
                 if let Some(chk) = &c.check {
                     let mut done = false;
+                    // an expression update whose result breaks the CHECK for some (not necessarily the
+                    // first) row: constraint validation of computed values, all-or-nothing
+                    if matches!(c.ty, Ty::Int | Ty::BigInt) && c.not_null && c.fk.is_none() && rng.chance(1, 2) {
+                        let mut ks = [-3i64, 3, -1, 1, -(sw.key_domain + 50), sw.key_domain + 50];
+                        let rot = rng.usize_below(ks.len());
+                        ks.rotate_left(rot);
+                        for k in ks {
+                            let breaks = t.rows.iter().any(|r| match &r[ci] {
+                                Val::Int(x) => {
+                                    let mut row: Row = vec![Val::Null; ncols];
+                                    row[ci] = Val::Int(x.saturating_add(k));
+                                    eval_pred(chk, &t.def, &row) == Some(false)
+                                }
+                                _ => false,
+                            });
+                            if breaks {
+                                sets.push((c.name.clone(), SetExpr::Add(k)));
+                                done = true;
+                                break;
+                            }
+                        }
+                        if done {
+                            if rng.chance(1, 2) {
+                                pred = Pred::True;
+                            }
+                            continue;
+                        }
+                    }
                     for cand in [Val::Int(-5), Val::Int(3), Val::Int(sw.key_domain + 50)] {
                         let mut row: Row = vec![Val::Null; ncols];
                         row[ci] = cand.clone();
@@ -565,7 +600,7 @@ impl Gen {
                     }
                 }
             }
-            if matches!(c.ty, Ty::Int | Ty::BigInt) && c.not_null && c.fk.is_none() && c.check.is_none() && rng.chance(1, 3) {
+            if matches!(c.ty, Ty::Int | Ty::BigInt) && c.not_null && c.fk.is_none() && rng.chance(1, 3) {
                 sets.push((c.name.clone(), SetExpr::Add(rng.range(-2, 3))));
             } else {
                 let v = self.good_val(rng, sw, st, t, ci, &[]);
@@ -872,6 +907,7 @@ pub fn swarm_for(profile: &str, rng: &mut Rng, thorough: bool) -> Swarm {
         long_max: if rng.chance(1, 4) { 20_000 } else { 5_000 },
         p_null: 12,
         p_multi_insert: 35,
+        p_medium: 0,
         max_rows_per_insert: rng.range(2, 8) as usize,
         apis: vec![Api::Literal],
         bulk_apis: vec![BulkApi::InsertBatch, BulkApi::InsertCached, BulkApi::BulkInsert],
@@ -1065,6 +1101,23 @@ pub fn swarm_for(profile: &str, rng: &mut Rng, thorough: bool) -> Swarm {
                 sw.cfg.checkpoint_threshold = Some(rng.range(2, 12) as u32);
             }
             sw.max_rows_per_insert = rng.range(2, 40) as usize;
+            if rng.chance(1, 4) {
+                // large transactions: tens of dirty pages per COMMIT (chunked commit path, WAL
+                // buffer larger than one write, multi-page splits)
+                sw.p_medium = 85;
+                sw.p_long = 0;
+                if !sw.types.contains(&Ty::Text) {
+                    sw.types.push(Ty::Text);
+                }
+                sw.max_rows_per_insert = 64;
+                sw.p_multi_insert = 90;
+                sw.w.insert *= 3;
+                sw.w.begin = 8;
+                sw.w.commit = 3;
+                sw.w.rollback = 1;
+                sw.w.truncate = 0;
+                sw.n_ops = sw.n_ops.max(16);
+            }
         }
         "config" => {
             sw.w.checkpoint = 2;
